@@ -9,12 +9,12 @@ package http
 //@   returns (out, err)
 //@   let sent := n_do == old(n_do) + 1
 //@   requires w.url != nil && w.client != nil
-//@   modifies req_method, req_url, req_body, n_do, do_method, do_url, do_body, do_err, do_status, do_final_method, do_resp_body, rd_buf, req_ctx, do_ctx, n_noctx, n_bodies_open
+//@   modifies req_method, req_url, req_body, n_do, do_method, do_url, do_body, do_err, do_status, do_final_method, do_resp_body, rd_buf, req_ctx, do_ctx, n_noctx, n_bodies_open, body_open
 //@   // one GET for this log's checkpoint path; 404 becomes exactly os.ErrNotExist, 200 the body bytes, anything else an error
 //@   ensures[C16.c1] n_do <= old(n_do) + 1 && (sent ==> do_method == "GET")
 //@   // ... the path naming the asked ID as ONE escaped segment (an ID like "./x" or "a/../x" must not resolve to log x's path)
-//@   ensures[C16.c1,C16.route] sent ==> do_url == urlStr(urlSrc(w.url) ++ "/witness/v0/logs/" ++ pathEsc(logID) ++ "/checkpoint")
-//@   ensures[C19.ctx,C16.ctx] (ctx != noCtx() ==> n_noctx == old(n_noctx)) && (sent ==> do_ctx == ctx)
+//@   ensures[C16.c1,C16.route] sent ==> do_url == urlStr(urlResolve(urlSrc(w.url), "/witness/v0/logs/" ++ pathEsc(logID) ++ "/checkpoint"))
+//@   ensures[C19.ctx,C16.ctx] (ctx != noCtx() && ctx != todoCtx() ==> n_noctx == old(n_noctx)) && (sent ==> do_ctx == ctx)
 //@   ensures[C16.c2] sent && do_err == nil && do_status == 404 ==> err == os.ErrNotExist && out == nil
 //@   ensures[C16.c3] sent && do_err == nil && do_status == 200 && err == nil ==> str(out) == do_resp_body
 //@   ensures[C16.c4] sent && do_err == nil && do_status != 200 && do_status != 404 ==> err != nil && err != os.ErrNotExist && out == nil
@@ -27,6 +27,6 @@ package http
 //@ func (Witness).Update
 //@   returns (out, err)
 //@   requires w.url != nil && w.client != nil
-//@   modifies heap, req_method, req_url, req_body, n_do, do_method, do_url, do_body, do_err, do_status, do_final_method, do_resp_body, rd_buf, req_ctx, do_ctx, n_noctx, n_bodies_open, rdr_bytes
-//@   ensures[C19.ctx,C13.ctx] (ctx != noCtx() ==> n_noctx == old(n_noctx)) && (n_do == old(n_do) + 1 ==> do_ctx == ctx)
+//@   modifies heap, req_method, req_url, req_body, n_do, do_method, do_url, do_body, do_err, do_status, do_final_method, do_resp_body, rd_buf, req_ctx, do_ctx, n_noctx, n_bodies_open, body_open, rdr_bytes
+//@   ensures[C19.ctx,C13.ctx] (ctx != noCtx() && ctx != todoCtx() ==> n_noctx == old(n_noctx)) && (n_do == old(n_do) + 1 ==> do_ctx == ctx)
 //@   ensures[C19.s] true
